@@ -29,6 +29,7 @@ type fault struct {
 	when    int
 	et      bool
 	hard    bool // the failing connection must be closed with an error; otherwise: no visible effect
+	fatal   bool // an error the loop does not survive by design (accept failing for good): the engine shuts down
 }
 
 func faultList(thorough bool, rng *vsup.Rng) []fault {
@@ -36,7 +37,7 @@ func faultList(thorough bool, rng *vsup.Rng) []fault {
 	add := func(sc, en string, hard bool, whens []int, modes []bool) {
 		for _, w := range whens {
 			for _, et := range modes {
-				out = append(out, fault{sc, en, w, et, hard})
+				out = append(out, fault{sc, en, w, et, hard, false})
 			}
 		}
 	}
@@ -149,6 +150,10 @@ func runFaultScenario(t *testing.T, rec *recorder, f fault, seed uint64, scratch
 		return false, nil
 	}
 	rec.emit("FaultArmed", "syscall", f.syscall, "errno", f.errno, "when", f.when, "hard", f.hard)
+	if f.fatal {
+		// from here on the engine may start shutting down by itself at any moment
+		rec.emit("StopReq", "src", "AcceptFatal", "g", vsup.Goid())
+	}
 	var wg sync.WaitGroup
 	for i := 1; i <= cfg.conns; i++ {
 		sp := randSpec(i, rng, cfg)
@@ -190,6 +195,21 @@ func runFaultScenario(t *testing.T, rec *recorder, f fault, seed uint64, scratch
 		}
 		_ = os.Remove(straceLog)
 	}
+	if f.fatal {
+		// Run returns by itself (the accept error is fatal by design); every connection opened before must have
+		// been closed first and nothing may be left behind
+		select {
+		case <-runErr:
+		case <-time.After(20 * time.Second):
+			rec.emit("RunStuck")
+			_ = h.eng.Stop(context.Background())
+		}
+		time.Sleep(20 * time.Millisecond)
+		h.closeDups(true)
+		rec.emit("Grace")
+		rep.Eval(fmt.Sprintf("fatal-%s-%s-%d-%v", f.syscall, f.errno, f.when, f.et))
+		return true, hits
+	}
 	// the engine must still serve a fresh connection
 	probe := &peerSpec{id: 60, seed: rng.Uint64(), network: "tcp", done: make(chan struct{}), total: 100, segs: []int{100}, shut: "fin",
 		peerRead: "normal", consume: "all", reply: "frames", openOut: -1, closeAt: -1, closeHow: "action"}
@@ -230,10 +250,34 @@ func TestVerifFaults(t *testing.T) {
 	defer rec.uninstall()
 	rng := vsup.NewRng(vsup.Seed() + 1818)
 	armed := 0
-	for _, f := range faultList(vsup.Thorough(), rng) {
+	list := faultList(vsup.Thorough(), rng)
+	fatalOnly := os.Getenv("VERIF_FAULT_SET") == "fatal"
+	if fatalOnly {
+		// C06 / C07: accept failing for good (the descriptor table is full) ends the engine; the shutdown it causes
+		// must be as complete as a requested one
+		list = nil
+		for _, k := range []int{2, 3} {
+			for _, et := range []bool{false, true} {
+				list = append(list, fault{syscall: "accept4", errno: "EMFILE", when: k, et: et, fatal: true})
+			}
+		}
+	}
+	for _, f := range list {
 		if ok, _ := runFaultScenario(t, rec, f, rng.Uint64(), scratch, rep); ok {
 			armed++
 		}
+	}
+	if fatalOnly {
+		rec.uninstall()
+		if err := rec.close(); err != nil {
+			t.Fatal(err)
+		}
+		rep.Set("faults_armed", armed)
+		rep.Set("events", rec.seq)
+		if err := rep.Write(); err != nil {
+			t.Fatal(err)
+		}
+		return
 	}
 	// epoll_ctl: strace can only count calls, so the call index is raised until a registration (ADD), a change of
 	// interest (MOD, level-triggered mode only) and a removal (DEL) have each been failed at least once
@@ -248,7 +292,7 @@ func TestVerifFaults(t *testing.T) {
 			maxK = 16
 		}
 		for k := 2; k <= maxK && len(want) > 0; k++ {
-			ok, hits := runFaultScenario(t, rec, fault{"epoll_ctl", "ENOMEM", k, et, true}, rng.Uint64(), scratch, rep)
+			ok, hits := runFaultScenario(t, rec, fault{"epoll_ctl", "ENOMEM", k, et, true, false}, rng.Uint64(), scratch, rep)
 			if ok {
 				armed++
 			}
